@@ -52,6 +52,16 @@ def stepC17 (s : DSt) (op : String) (got : String) : StepResult DSt :=
            let o : Obs := { lh := s.lh, face := c.face, name := c.name, params := c.params, routed := routed,
                             before := before, out := out, after := after }
            ((check o).map fun cl => ⟨cl, c.key, s!"clause {cl} violated by the implementation: {op} => {got.take 300}"⟩) ++
+           -- "each status dataset lists exactly the current table contents" presupposes an answer: an authorised,
+           -- delivered request for one of the plain table listings (what the model answers with a dataset) that gets
+           -- NO answer violates it. Driver-level clause (the model's answer is the witness); big tables are the case
+           (match out, r with
+            | .none, .dataset _ _ _ _ =>
+              if o.auth && routed && (faceGet after.faces c.face).isSome && c.name.length == 4 && lhPrefix.isPrefixOf c.name then
+                [⟨"dataset", "unanswered-" ++ c.key ++ (if after.rib.length + after.fib.length > 250 then "-large" else ""),
+                  s!"an authorised request for a status dataset got no answer ({after.rib.length} RIB entries, {after.fib.length} FIB entries): {op}"⟩]
+              else []
+            | _, _ => []) ++
            -- an accepted RIB command / face destruction is in force in the FIB (C06's relation, checked here
            -- because the command's answer promises it): entries at or below the prefix are re-flattened
            (match out, verbOf c.name, c.params with
@@ -67,7 +77,12 @@ def stepC17 (s : DSt) (op : String) (got : String) : StepResult DSt :=
       let codeTag := match r with
         | .none => "none" | .ctrl cde _ => toString cde | .dataset _ _ _ _ => "dataset" | .panic _ => "panic"
       let pfxTag := if lhPrefix.isPrefixOf c.name then "lh" else if lpPrefix.isPrefixOf c.name then "lp" else "other"
-      { st := { s with st := st', prev := gotTables <|> s.prev }, expected := (if unmodelled then none else some expected), spec := spec,
+      -- a status dataset of a big table does not fit one packet and the code does not segment (known finding F-17m):
+      -- whether the answer comes depends on encoded sizes the model does not compute - not compared, judged by the
+      -- clause dataset/unanswered-… above
+      let bigDataset := (match r with | .dataset _ _ _ _ => true | _ => false) &&
+        (tablesOf st').rib.length + (tablesOf st').fib.length > 250
+      { st := { s with st := st', prev := gotTables <|> s.prev }, expected := (if unmodelled || bigDataset then none else some expected), spec := spec,
         cov := [s!"{c.key}:{codeTag}", s!"arrive:{pfxTag}:{if guard then "pass" else "scope-drop"}:{if routed then "routed" else "unrouted"}"],
         nontrivial := (match r with | .ctrl 200 _ => true | .dataset _ _ _ _ => true | _ => false) }
   | ["send", face, size] =>
